@@ -1027,6 +1027,11 @@ class StrategyBase(Node):
         Args:
             * child (str): Child, specified by name.
         """
+        # a child declared by name only and never used so far holds nothing:
+        # closing it is the no-op it is for a child constructed up front
+        if child not in self.children and child in self._lazy_children:
+            return
+
         c = self.children[child]
         # flatten if children not None
         if c.children is not None and len(c.children) != 0:
